@@ -15,7 +15,8 @@ theorem Rel.linkNew {h : Nat → Nat} {pt : PTable} {t : Table} (hr : Rel pt t) 
   let t0 : PTable := if pt.allocated then pt else { pt with allocated := true, heads := fun _ => none }
   let d : Nat → List Nat := if t.allocated then t.data else fun _ => []
   have ht0 : (t0.items = pt.items ∧ t0.freeItem = pt.freeItem ∧ t0.blocks = pt.blocks ∧ t0.self = pt.self ∧
-      t0.cap = pt.cap ∧ t0.begin = pt.begin ∧ t0.endPrev = pt.endPrev ∧ t0.size = pt.size ∧ t0.allocated = true) := by
+      t0.cap = pt.cap ∧ t0.begin = pt.begin ∧ t0.endPrev = pt.endPrev ∧ t0.size = pt.size ∧ t0.allocated = true ∧
+      t0.ipb = pt.ipb ∧ t0.dcap = pt.dcap) := by
     by_cases ha : pt.allocated = true <;> simp [t0, ha]
   have hch0 : ∀ b, Chain t0.items b (t0.heads b) (d b) := by
     intro b
@@ -37,8 +38,9 @@ theorem Rel.linkNew {h : Nat → Nat} {pt : PTable} {t : Table} (hr : Rel pt t) 
     · simp only [d, ha, if_true]; exact hi.chain_nodup ha b
     · simp [d, ha]
   -- allocation
-  obtain ⟨e_id, e_free, e_blocks, e_fields, e_prev, e_self, e_cap, e_alloc, e_heads, e_begin, e_endPrev, e_size⟩ :=
+  obtain ⟨e_id, e_free, e_blocks, e_fields, e_prev, e_self, e_cap, e_alloc, e_heads, e_begin, e_endPrev, e_size, e_ipb, e_dcap⟩ :=
     alloc_sim kind t0 t (by rw [ht0.1, ht0.2.1]; exact hr.free) (by rw [ht0.2.2.1]; exact hr.blocks)
+      (by rw [ht0.2.2.2.2.2.2.2.2.2.1]; exact hr.ipb) hi.ipb_pos
   have hch1 : ∀ b, Chain (t0.allocItem kind).2.items b ((t0.allocItem kind).2.heads b) (d b) := by
     intro b
     rw [e_heads]
@@ -46,7 +48,7 @@ theorem Rel.linkNew {h : Nat → Nat} {pt : PTable} {t : Table} (hr : Rel pt t) 
   have hcap : (t0.allocItem kind).2.cap = t.cap := by rw [e_cap, ht0.2.2.2.2.1, hr.cap]
   -- chain part
   have hid_d : ∀ b, (t.allocItem kind).1 ∉ d b := fun b hm => a_order ((hd_iff b _).1 hm).1
-  obtain ⟨c_ch, c_pn, c_kv, c_key, c_val, c_self, c_cap, c_alloc, c_begin, c_endPrev, c_size, c_free, c_blocks⟩ :=
+  obtain ⟨c_ch, c_pn, c_kv, c_key, c_val, c_self, c_cap, c_alloc, c_begin, c_endPrev, c_size, c_free, c_blocks, c_ipb, c_dcap⟩ :=
     linkChain_spec kind (t0.allocItem kind).2 d (t.allocItem kind).1 (h k % t.cap) k v hch1 hid_d hd_nodup
       (fun b b' j hb hb' => by rw [← ((hd_iff b j).1 hb).2, ← ((hd_iff b' j).1 hb').2])
   -- order part
@@ -66,7 +68,7 @@ theorem Rel.linkNew {h : Nat → Nat} {pt : PTable} {t : Table} (hr : Rel pt t) 
     rw [List.take_append_drop, c_endPrev, e_endPrev, ht0.2.2.2.2.2.2.1]; exact hr.last
   obtain ⟨o_dll, o_last, o_prev⟩ := linkOrder_split _ (t.order.take p) (t.order.drop p) (t.allocItem kind).1 hdll4 hlast4
     (by rw [List.take_append_drop]; exact hi.order_nodup) (by rw [List.take_append_drop]; exact a_order)
-  obtain ⟨_, _, _, _, _, _, _, _, o_fields, o_size, o_self, o_cap, o_alloc, o_heads, o_free, o_blocks⟩ :=
+  obtain ⟨_, _, _, _, _, _, _, _, o_fields, o_size, o_self, o_cap, o_alloc, o_heads, o_free, o_blocks, o_ipb, o_dcap⟩ :=
     linkOrder_fields ((t0.allocItem kind).2.linkChain kind (t.allocItem kind).1 (h k % t.cap) k v) (t.allocItem kind).1
       (headP Nxt.item (t.order.drop p) (.stl ((t0.allocItem kind).2.linkChain kind (t.allocItem kind).1 (h k % t.cap) k v).self))
       (by
@@ -101,9 +103,11 @@ theorem Rel.linkNew {h : Nat → Nat} {pt : PTable} {t : Table} (hr : Rel pt t) 
   show Rel _ (t.linkNew kind h p k v).1
   constructor
   · show _ = t.cap; rw [o_cap, c_cap, hcap]
-  · show _ = true; rw [o_alloc, c_alloc, e_alloc, ht0.2.2.2.2.2.2.2.2]
+  · show _ = true; rw [o_alloc, c_alloc, e_alloc, ht0.2.2.2.2.2.2.2.2.1]
   · show _ = t.size + 1; rw [o_size, c_size, e_size, ht0.2.2.2.2.2.2.2.1, hr.size]
   · show _ = (t.allocItem kind).2.2; rw [o_blocks, c_blocks, e_blocks]
+  · show _ = t.ipb; rw [o_ipb, c_ipb, e_ipb, ht0.2.2.2.2.2.2.2.2.2.1, hr.ipb]
+  · show _ = t.dcap; rw [o_dcap, c_dcap, e_dcap, ht0.2.2.2.2.2.2.2.2.2.2, hr.dcap]
   · intro j
     show _ = (upd t.items (t.allocItem kind).1 ⟨k, Table.storedValue kind v, h k % t.cap⟩ j).key ∧
          _ = (upd t.items (t.allocItem kind).1 ⟨k, Table.storedValue kind v, h k % t.cap⟩ j).value
